@@ -34,3 +34,9 @@ func Self_SetGet() {
 	vObserve("size", tree.Size())
 	vObserve("got", got)
 }
+
+var _ = vReg("Self_Empty", Self_Empty)
+
+func Self_Empty() {
+	vObserve("steps", 1)
+}
